@@ -103,6 +103,14 @@ PROPS = {
         "assumptions": ["the Go scheduler is modelled as: the goroutine may continue on any live thread at a schedule point unless runtime.LockOSThread is in effect",
                         "the harness forces migration attempts at the hook between prctl and seccomp (sleep + Gosched with busy Ps)"],
     },
+    "C15": {
+        "lean": ["Seccomp.Proofs.C15"],
+        "streams": [{"tool": "vprobe", "stream": "kernel", "profile": "sandbox", "quick": 80, "thorough": 2000, "thorough_seeds": 2, "args": ["-profile", "sandbox"]}],
+        "trusted": ["the sandbox translator (harness/cmd/vextract/sandbox.go): statement subset of cmd/sandbox main → Gen/SandboxSkeleton.lean; the outcomes of parsePolicy / LoadFilter / cmd.Run are oracles of the world",
+                    "exec and filter inheritance by the child image are kernel behaviour (assumed; exercised by the live runs)"],
+        "assumptions": ["what a nil LoadFilter result means is C09; that the filter decides as the policy says is C01/C08; that the YAML path denotes the policy is C14",
+                        "live runs use errno/allow/log actions only (a killed target is indistinguishable from a failing one at the sandbox's exit status)"],
+    },
     "C19": {
         "lean": ["Seccomp.Proofs.C19"],
         # one pass over the facts; thorough additionally runs go build + go vet for every target (scratch GOCACHE)
